@@ -216,7 +216,8 @@ def finalStatus (c : Cfg) (s : State) (retry : Nat) : Option Status :=
   else if sts.contains .canceled then some .canceled
   else
     let otherIncomplete := (List.range c.n).any (fun i =>
-      (s.stage i).status == .running || ((s.stage i).status == .notStarted && allUpContinuable c s i))
+      (s.stage i).status == .running || (s.stage i).status == .suspended || (s.stage i).status == .paused   -- F43
+        || ((s.stage i).status == .notStarted && allUpContinuable c s i))
     if sts.contains .stopped && !otherIncomplete then some .succeeded
     else if explicitlyWaiting s && !s.canceled then none   -- waiting is not "stuck": no wait budget is spent on it
                                                            -- (F38 repair: unless a cancel is in progress - CancelStage pushes no
